@@ -8,7 +8,7 @@
    - Model/Scte.v: `new_scte35`, the model of scte35.NewSCTE35 (repaired code for F8 and the two loops);
    - Proofs/ScteDecode.v: `wf_fixed` = the field ranges of the fixed part only (used by the rejections, which
      must not assume a well-formed command / descriptor list). *)
-From Gots Require Import Base.Prelude Model.Pts Model.Scte Spec.Scte35Spec Proofs.ScteExpected Proofs.ScteDecode Proofs.ScteReject Proofs.ScteWitness08 Proofs.SctePadded.
+From Gots Require Import Base.Prelude Model.Pts Model.Scte Spec.Scte35Spec Proofs.ScteExpected Proofs.ScteDecode Proofs.ScteReject Proofs.ScteWitness08 Proofs.SctePadded Proofs.ScteBytes.
 Import Scte Scte35Spec.
 Local Open Scope N_scope.
 
@@ -26,6 +26,12 @@ Theorem C08_decode_ser_padded : forall s tr, supported s ->
   new_scte35 (padded s tr) = Ok (set_data (expected s) (ser_section s ++ tr)).
 Proof. exact decode_ser_padded. Qed.
 Print Assumptions C08_decode_ser_padded.
+
+(* the serialisation of a well-formed logical section is a string of bytes (every element < 256): the theorems above
+   speak about real inputs *)
+Theorem C08_ser_is_bytes : forall s, wf_splice_info s -> is_bytes (ser_splice_info s).
+Proof. exact ser_is_bytes. Qed.
+Print Assumptions C08_ser_is_bytes.
 
 Theorem C08_supported_of_wf : forall s, wf_splice_info s -> si_table_id s = 252 -> si_encrypted s = false ->
   len (si_pointer s) < 255 -> supported_cmd (si_cmd s) -> supported s.
